@@ -36,7 +36,7 @@ theorem evalSelect_simple (base : List Row) (q : Query) (defs : Defs) (hd : Defs
   have hcol : ∀ u, isEwise (inline defs (.col u .null .elementWise)) = true :=
     fun u => inline_ewise defs hd _ (by simp [isEwise])
   unfold evalSelect
-  simp only [hagg, hh, ho, hl, List.map_nil, List.all_nil, List.isEmpty_nil, Bool.false_eq_true, ↓reduceIte]
+  simp only [hagg, hh, ho, hl, cutIdx, List.map_nil, List.all_nil, List.isEmpty_nil, Bool.false_eq_true, ↓reduceIte]
   generalize filterRows base (q.where_.map (inline defs)) = filtered
   have hu : (((singletons filtered).zip (List.range (singletons filtered).length)).filter (fun _ => true)).map (·.1) = singletons filtered :=
     zip_range_filter_true _
